@@ -318,6 +318,15 @@ def State.serializePrettyXml (s : State) (nsOf : Nat → Option Nat) (rdfType ma
 def State.serializeCtxs (s : State) : State × Out :=
   (s.contextsCall.1, .blocks (blocksOf s.contextsCall.1.quads s.contextsCall.2))
 
+/-- hext (`HextuplesSerializer.__init__`): `self.contexts = list(store.contexts())` and, when the default context is
+    truthy (non-empty), `self.contexts.append(store.default_context)` — a registered non-empty default graph is written
+    TWICE (one line per triple and list entry); `trigContexts` is that list -/
+def State.serializeHext (s : State) : State × Out :=
+  (s.contextsCall.1,
+   .blocks (blocksOf s.contextsCall.1.quads
+     (if (triplesOf s.contextsCall.1.quads s.contextsCall.1.dname).isEmpty then s.contextsCall.2
+      else s.contextsCall.2 ++ [s.contextsCall.1.dname])))
+
 /-- patch with `operation=add|remove`: `self.store.contexts()` and, per context, `self.store.get_context(id)`
     (a new Graph object on the same store) -/
 def State.serializePatch (s : State) : State × Out :=
@@ -622,6 +631,22 @@ def aggQuads (qs : List Quad) (pat : Pat) : List GName → List Quad
   | [] => []
   | g :: gs => tagWith g ((triplesOf qs g).filter pat.matches) ++ aggQuads qs pat gs
 
+/-! ### `Graph.transitive_objects(s, p)` / `transitive_subjects(p, o)`: depth-first walk with a `remember` dict -/
+
+/-- `self.objects(x, p)` (`fwd`) resp. `self.subjects(p, x)` -/
+def stepNodes (ts : List Triple) (p : Nat) (fwd : Bool) (x : Nat) : List Nat :=
+  if fwd then (ts.filter (fun t => t.1 == x && t.2.1 == p)).map (·.2.2)
+  else (ts.filter (fun t => t.2.2 == x && t.2.1 == p)).map (·.1)
+
+/-- the recursion as a stack machine: pop a node; seen (`if subject in remember: return`) → skip; else remember it,
+    yield it and push its neighbours.  `fuel` bounds the pops (`ts.length + 2` suffices: every triple is pushed at most once). -/
+def transWalk (ts : List Triple) (p : Nat) (fwd : Bool) : Nat → List Nat → List Nat → List Nat
+  | 0, _, seen => seen
+  | _ + 1, [], seen => seen
+  | n + 1, x :: stack, seen =>
+    if seen.contains x then transWalk ts p fwd n stack seen
+    else transWalk ts p fwd n (stepNodes ts p fwd x ++ stack) (seen ++ [x])
+
 /-! ### the read operations -/
 
 inductive ReadOp
@@ -630,7 +655,9 @@ inductive ReadOp
   | serializeLongTurtle (nsOf : Nat → Option Nat) (canon : Bool) (canonf : List Triple → List Triple)
   | serializeXml (nsOf : Nat → Option Nat)                 -- xml
   | serializePrettyXml (nsOf : Nat → Option Nat) (rdfType maxDepth : Nat)
-  | serializeCtxs                                          -- nquads, trix, hext
+  | serializeCtxs                                          -- nquads, trix
+  | serializeHext                                          -- hext
+  | transitive (start p : Nat) (fwd : Bool)                -- transitive_objects(start, p) / transitive_subjects(p, start)
   | serializePatch                                         -- patch, operation = add | remove
   | serializePatchTarget (target : List Quad)              -- patch, target = another dataset
   | serializeTrig (nsOf : Nat → Option Nat)
@@ -673,6 +700,8 @@ def State.run (s : State) : ReadOp → State × Out
   | .serializeXml nsOf => s.serializeXml nsOf
   | .serializePrettyXml nsOf ty d => s.serializePrettyXml nsOf ty d
   | .serializeCtxs => s.serializeCtxs
+  | .serializeHext => s.serializeHext
+  | .transitive x p fwd => (s, .rows [transWalk s.visible p fwd (s.visible.length + 2) [x] []])
   | .serializePatch => s.serializePatch
   | .serializePatchTarget target => s.serializePatchTarget target
   | .serializeTrig nsOf => s.serializeTrig nsOf
